@@ -278,6 +278,40 @@ theorem applyItems_stable {tbl : List Gen.Desc} {mk : Gen.Desc → Nat → P2.Tr
         rw [find_setEntry_ne _ _ (by rw [upsertResult_name, hmk]; exact hn)]
         exact hx
 
+theorem upsert_stable {old ds : DS} {new e : Entry} (hold : find old e.name = some e)
+    (hcls : new.name = e.name → sameClass e new = true)
+    (h : ∃ x, find ds e.name = some { e with triple := x }) :
+    ∃ y, find (upsert old ds new) e.name = some { e with triple := y } := by
+  rw [upsert_eq]
+  by_cases hn : new.name = e.name
+  · have hres : upsertResult old new = { e with triple := new.triple } := by
+      unfold upsertResult
+      rw [hn, hold]
+      simp [hcls hn]
+    exact ⟨new.triple, by rw [hres]; exact find_setEntry_self ds { e with triple := new.triple }⟩
+  · obtain ⟨x, hx⟩ := h
+    exact ⟨x, by rw [find_setEntry_ne _ _ (by rw [upsertResult_name]; exact hn)]; exact hx⟩
+
+theorem updateOnly_stable {old ds : DS} {new e : Entry} (hold : find old e.name = some e)
+    (h : ∃ x, find ds e.name = some { e with triple := x }) :
+    ∃ y, find (updateOnly old ds new) e.name = some { e with triple := y } := by
+  unfold updateOnly
+  cases hf : find old new.name with
+  | none => exact h
+  | some e0 =>
+    simp only []
+    split
+    · by_cases hn : new.name = e.name
+      · rw [hn, hold] at hf
+        cases hf
+        exact ⟨new.triple, find_setEntry_self ds { e with triple := new.triple }⟩
+      · obtain ⟨x, hx⟩ := h
+        have hne : ({ e0 with triple := new.triple } : Entry).name ≠ e.name := by
+          have := (find_some hf).2
+          simpa [this] using hn
+        exact ⟨x, by rw [find_setEntry_ne _ _ hne]; exact hx⟩
+    · exact h
+
 end handlers
 
 theorem updDev_inv {Q : Nat → DS → Prop} {l : List (Nat × DS)} {i : Nat} {f : DS → DS}
@@ -481,16 +515,11 @@ theorem step_ok {pt : Product} {w : World} (h : WorldOK pt w) (ev : Event) : Wor
     · exact h
     · next profile blocks _ _ =>
       refine ⟨?_, h.mix, applyThermostats_inv blocks _ h.thr⟩
-      have hf : ∀ e ∈ w.ecomax.filter (fun x => !(x.name == Gen.thermostatProfile.name)), EntryOK pt e ∧ OnEcomax e :=
-        fun e he => h.eco e (List.mem_filter.mp he).1
       cases profile with
-      | none => exact hf
+      | none => exact fun e he => h.eco e (List.mem_filter.mp he).1
       | some t =>
-        intro e he
-        simp only [List.mem_cons] at he
-        rcases he with rfl | he
-        · exact ⟨⟨Gen.thermostatProfile, by simp [newEntry, tableOf], rfl, rfl, rfl⟩, by simp [OnEcomax, newEntry]⟩
-        · exact hf e he
+        exact all_upsert (P := fun e => EntryOK pt e ∧ OnEcomax e) (fun e t h => h) h.eco h.eco
+          ⟨⟨Gen.thermostatProfile, by simp [newEntry, tableOf], rfl, rfl, rfl⟩, by simp [OnEcomax, newEntry]⟩
   | schedules msg =>
     simp only [step]
     split
